@@ -332,7 +332,9 @@ func RunParent(ck *Check, root, tier string, seed uint64, only []int) int {
 					pending.Done()
 					continue
 				}
-				timer := time.AfterFunc(caseTimeout*time.Duration(c.to-c.from)+30*time.Second, func() {
+				// budget of a child: one case may use its whole time-out, the others a share (a hung case is noticed
+				// after minutes, not after cases x time-out)
+				timer := time.AfterFunc(caseTimeout+time.Duration(c.to-c.from)*25*time.Second+30*time.Second, func() {
 					timedOut = true
 					_ = cmd.Process.Signal(syscall.SIGQUIT)
 					time.AfterFunc(5*time.Second, func() { _ = cmd.Process.Kill() })
